@@ -414,6 +414,56 @@ namespace
     }
     return v;
   }
+
+  // ---------- suite maxdefault: a 'max depth' list that leaves polygon corners without a value ----------
+  // The documented default of 'max depth' is "no limit" (the largest double). A corner the list does not name keeps it, so the plate has no bottom there,
+  // while a listed point has exactly its listed bottom.
+  void run_maxdefault(uint64_t idx, Ctx &ctx)
+  {
+    static const int c_l = Ctx::counter_id("listed_points_checked"), c_c = Ctx::counter_id("unlisted_corners_checked");
+    const unsigned f = static_cast<unsigned>(idx % 3); const bool sph = (idx / 3) % 2; const unsigned layout = static_cast<unsigned>(idx / 6) % 4;
+    const double s = sph ? 1.0 : 1e5;
+    // layouts: one interior point; two interior points; an interior point and a listed corner; three interior points (two values)
+    const std::vector<std::vector<std::pair<P2,double>>> L =
+    {
+      {{{{1,1}}, 1.2e5}},
+      {{{{-2,1}}, 0.8e5}, {{{2,-1}}, 2.0e5}},
+      {{{{0,2}}, 1.5e5}, {{{4,4}}, 0.9e5}},
+      {{{{-1,-2}}, 1.0e5}, {{{1,0}}, 1.0e5}, {{{3,3}}, 2.2e5}},
+    };
+    const auto &pl = L[layout];
+    std::string md = "[";
+    for (size_t i = 0; i < pl.size(); ++i) md += std::string(i ? "," : "") + "[" + num(pl[i].second) + ",[" + pt({pl[i].first[0]*s, pl[i].first[1]*s}) + "]]";
+    md += "]";
+    const std::string feat = std::string("{\"model\":\"") + FEATURES[f] + "\",\"name\":\"A\",\"max depth\":" + md + ",\"coordinates\":" + pts({{-4*s,-4*s},{4*s,-4*s},{4*s,4*s},{-4*s,4*s}}) +
+                             ",\"temperature models\":[{\"model\":\"uniform\",\"temperature\":500}]}";
+    const std::string text = world(coord(sph), {feat});
+    std::unique_ptr<World> w;
+    try { w = make_world(text); }
+    catch (const std::exception &e) { ctx.violation("harness/world-rejected", JObj().str("what", std::string(e.what()).substr(0, 300)).str("world", text).done()); return; }
+    auto tag = [&](double x, double y, double d) { return w->properties(query_point(sph, x*s, y*s, d), d, {{{4,0,0}}})[0]; };
+    auto fail = [&](const std::string &sig, const std::string &what, double x, double y, double d, double got)
+    { ctx.violation("C11/max-depth-list-without-a-default/" + sig + (sph ? "/spherical" : "/cartesian") + "/layout-" + std::to_string(layout), JObj().str("what", what).str("feature", FEATURES[f]).boolean("spherical", sph).raw("point_lattice_units", jarr(std::vector<double>{x, y})).num("depth", d).num("tag", got).str("world", text).done()); };
+    for (auto &q : pl)
+      {
+        ctx.eval(); ctx.count(c_l);
+        const double x = q.first[0], y = q.first[1], v = q.second;
+        if (tag(x, y, v - 500) != 0) { fail("listed-point-not-inside-above-its-listed-bottom", "500 m above the bottom listed for this point the plate is not found", x, y, v - 500, tag(x, y, v - 500)); return; }
+        if (tag(x, y, v + 500) == 0) { fail("listed-point-inside-below-its-listed-bottom", "500 m below the bottom listed for this point the plate is still found", x, y, v + 500, 0); return; }
+      }
+    for (auto c : std::vector<P2>{{{-4,-4}},{{4,-4}},{{4,4}},{{-4,4}}})
+      {
+        bool listed = false;
+        for (auto &q : pl) if (q.first[0] == c[0] && q.first[1] == c[1]) listed = true;
+        if (listed) continue;
+        ctx.eval(); ctx.count(c_c);
+        // just inside the corner (the corner itself is on the edge of the polygon)
+        const double x = c[0] * 0.999, y = c[1] * 0.999;
+        for (double d : {3e5, 1e6, 2.5e6})
+          if (tag(x, y, d) != 0) { fail("plate-has-a-bottom-next-to-a-corner-without-a-value", "next to a corner that the list does not name the plate must have no bottom (documented default of max depth)", x, y, d, tag(x, y, d)); return; }
+      }
+    ctx.nontrivial();
+  }
 }
 
 int main(int argc, char **argv)
@@ -435,7 +485,9 @@ int main(int argc, char **argv)
   {
     static std::vector<Case> cs;
     cs = cases(tier == "thorough");
-    std::vector<Suite> s(1);
+    std::vector<Suite> s(2);
+    s[1].name = "maxdefault"; s[1].n = 24; s[1].run = run_maxdefault;
+    s[1].bound = "3 area features x 2 coordinate systems x 4 layouts of a max depth list that names one to three points and no value for the corners: listed bottoms honoured within 500 m, no bottom next to the corners the list does not name (depths up to 2500 km)";
     s[0].name = "surfaces";
     s[0].n = cs.size();
     s[0].run = [](uint64_t i, Ctx &c) { run_case(cs[i], c); if (i % 997 == 13) c.sample(describe(cs[i])); };
